@@ -1,67 +1,184 @@
 (* Proofs about Model/Wait.v: no-lost-notification invariants of readMore, timeout-not-early, enough
-   data on Ok, stability of an enabled wake-up, Flush's retry bound, AcceptStream/initProtocol. *)
+   data on Ok, stability of an enabled wake-up, Flush's retry bound, AcceptStream/initProtocol.
+   (The inductive invariant itself is in Proofs/WaitInv.v.) *)
 From Coq Require Import List ZArith Lia Bool Arith.
-From Shm Require Import Gen.Consts Model.Wait.
+From Shm Require Import Gen.Consts Model.Wait Proofs.WaitInv.
 Import ListNotations.
 Open Scope Z_scope.
 
-Definition rd_waiting (p : rpc) : bool := match p with RState | RArm | RParked => true | _ => false end.
-Definition rd_pre (p : rpc) : bool := match p with RIdle | RCheck | RState | RArm | RDone => true | _ => false end.
-Definition lc_mid_open (l : lpc) : bool := match l with LCased SOpen | LCleaned SOpen => true | _ => false end.
+(* --- the statements --- *)
+Lemma no_lost_notify : forall evs, let s := run evs init in
+  ((0 < pend s)%nat -> rd_waiting (rd s) = true -> token s = true \/ epc s = true) /\
+  (ss s <> SOpen -> closeN s = true \/ ppc s = true \/ lc_mid_open (lc s) = true) /\
+  (sclosing s = true -> closeN s = true).
+Proof.
+  intros evs s. destruct (winv_run evs init winv_init) as [h1 h2 h3 _ _ _ _ _ _]. fold s in h1, h2, h3. auto.
+Qed.
 
-Record WInv (s : st) : Prop := {
-  w_n1 : (0 < pend s)%nat -> rd_waiting (rd s) = true -> token s = true \/ epc s = true;
-  w_n2 : ss s <> SOpen -> closeN s = true \/ ppc s = true \/ lc_mid_open (lc s) = true;
-  w_n3 : sclosing s = true -> closeN s = true;
-  w_t0 : rd_pre (rd s) = true -> tmr s = None /\ tch s = false;
-  w_t1 : forall t, tmr s = Some t -> t = armed s /\ use_t s = true;
-  w_t2 : tch s = true -> use_t s = true /\ armed s <= now s;
-  w_t3 : rd_pre (rd s) = false -> use_t s = true ->
-         dl s = Some (armed s) /\ (tch s = true \/ tmr s = Some (armed s));
-  w_e1 : forall n, res s = Some (ROk n) -> (minsz s <= n)%nat;
-  w_r : res s <> None -> rd s = RDone }.
+Lemma wake_stable : forall s e, rd s = RParked -> wake_enabled s = true -> is_reader_ev e = false ->
+  rd (step s e) = RParked /\ wake_enabled (step s e) = true.
+Proof.
+  intros s e Hr Hw He.
+  destruct s as [pend0 rbuf0 token0 closeN0 ss0 epc0 ppc0 lc0 sclosing0 now0 dl0 tmr0 tch0 use_t0 armed0 rd0 minsz0 res0].
+  cbn in Hr. subst rd0. unfold wake_enabled in *. cbn in Hw.
+  destruct e; try discriminate; cbn [step];
+    cbn [pend rbuf token closeN ss epc ppc lc sclosing now dl tmr tch use_t armed rd minsz res];
+    brk; cbn; rewrite ?orb_true_r; auto.
+  (* Fire: tch becomes true *)
+  all: try (split; [reflexivity|]; destruct token0, closeN0, use_t0, tch0; cbn in *; auto).
+Qed.
 
-Lemma winv_init : WInv init.
-Proof. constructor; cbn; intros; try discriminate; try lia; try tauto; auto. Qed.
+Lemma wake_or_helper : forall evs, let s := run evs init in
+  rd s = RParked ->
+  ((0 < pend s)%nat \/ ss s <> SOpen \/ sclosing s = true \/ (use_t s = true /\ armed s <= now s)) ->
+  wake_enabled s = true \/ helper_pending s = true.
+Proof.
+  intros evs s Hr Hc. destruct (winv_run evs init winv_init) as [h1 h2 h3 h4 h5 h6 h7 h8 h9].
+  fold s in h1, h2, h3, h4, h5, h6, h7, h8, h9. unfold wake_enabled, helper_pending. rewrite Hr in *. cbn in *.
+  destruct Hc as [Hc|[Hc|[Hc|[Hu Ha]]]].
+  - destruct (h1 Hc eq_refl) as [E|E]; rewrite E; cbn; rewrite ?orb_true_r; auto.
+  - destruct (h2 Hc) as [E|[E|E]].
+    + left. rewrite E. rewrite orb_true_r. reflexivity.
+    + right. rewrite E. rewrite orb_true_r. reflexivity.
+    + right. unfold lc_mid_open in E. destruct (lc s) as [|o|o|o]; try discriminate; destruct o; try discriminate;
+        cbn; rewrite ?orb_true_r; reflexivity.
+  - left. rewrite (h3 Hc). rewrite orb_true_r. reflexivity.
+  - destruct (h7 eq_refl Hu) as [_ [E|E]].
+    + left. rewrite Hu, E. cbn. rewrite orb_true_r. reflexivity.
+    + right. rewrite E. apply Z.leb_le in Ha. rewrite Ha. rewrite orb_true_r. reflexivity.
+Qed.
 
-Ltac brk :=
-  repeat match goal with
-         | |- context [sst_eqb ?a _] => is_var a; destruct a
-         | |- context [match ?x with RIdle => _ | _ => _ end] => is_var x; destruct x
-         | |- context [match ?x with LIdle => _ | _ => _ end] => is_var x; destruct x
-         | |- context [match ?x with BNotify => _ | _ => _ end] => is_var x; destruct x
-         | |- context [match ?x with Some _ => _ | None => _ end] => is_var x; destruct x
-         | |- context [if ?c then _ else _] => is_var c; destruct c
-         | |- context [if ?c then _ else _] => destruct c eqn:?
-         end.
-
-Ltac norm :=
-  repeat match goal with
-         | H : (_ <=? _)%nat = true |- _ => apply Nat.leb_le in H
-         | H : (_ <=? _)%nat = false |- _ => apply Nat.leb_gt in H
-         | H : (_ =? _)%nat = true |- _ => apply Nat.eqb_eq in H
-         | H : (_ =? _)%nat = false |- _ => apply Nat.eqb_neq in H
-         | H : (_ <=? _) = true |- _ => apply Z.leb_le in H
-         | H : (_ <=? _) = false |- _ => apply Z.leb_gt in H
-         | H : (_ <? _) = true |- _ => apply Z.ltb_lt in H
-         | H : (_ <? _) = false |- _ => apply Z.ltb_ge in H
-         | H : _ || _ = false |- _ => apply orb_false_elim in H; destruct H
-         | H : _ && _ = true |- _ => apply andb_prop in H; destruct H
-         end.
-
-Ltac fld := cbn in *; intros; norm;
-            repeat match goal with
-                   | H : Some _ = Some _ |- _ => inversion H; clear H; subst
-                   | H : ROk _ = ROk _ |- _ => inversion H; clear H; subst
-                   end;
-            try solve [intuition (try congruence; try discriminate; try lia)].
-
-Lemma winv_step : forall s e, WInv s -> WInv (step s e).
+Lemma timeout_step : forall s e, WInv s ->
+  res (step s e) = Some RErrTimeout -> res s <> Some RErrTimeout ->
+  exists d, dl s = Some d /\ d <= now s.
 Proof.
   intros s e [h1 h2 h3 h4 h5 h6 h7 h8 h9].
   destruct s as [pend0 rbuf0 token0 closeN0 ss0 epc0 ppc0 lc0 sclosing0 now0 dl0 tmr0 tch0 use_t0 armed0 rd0 minsz0 res0].
   cbn in h1, h2, h3, h4, h5, h6, h7, h8, h9.
   destruct e; cbn [step]; unfold reader_step, wake, finish_early, finish_late, move_to, set_rd;
     cbn [pend rbuf token closeN ss epc ppc lc sclosing now dl tmr tch use_t armed rd minsz res];
-    brk; constructor; fld.
+    brk; cbn; intros A B; try congruence.
+  (* the only case left: the parked select took the timer branch *)
+  all: norm; exists armed0; cbn in *; intuition congruence.
+Qed.
+
+Lemma timeout_not_early : forall evs e, let s := run evs init in
+  res (step s e) = Some RErrTimeout -> res s <> Some RErrTimeout ->
+  exists d, dl s = Some d /\ d <= now s.
+Proof. intros evs e s. apply timeout_step. apply winv_run. exact winv_init. Qed.
+
+Lemma enough : forall evs n, let s := run evs init in res s = Some (ROk n) -> (minsz s <= n)%nat.
+Proof. intros evs n s. destruct (winv_run evs init winv_init) as [_ _ _ _ _ _ _ h8 _]. apply h8. Qed.
+
+(* the timer value is delivered only at or after the armed deadline, and only a call that armed
+   the timer can see it *)
+Lemma timer_sound : forall evs, let s := run evs init in
+  tch s = true -> use_t s = true /\ armed s <= now s /\ dl s = Some (armed s).
+Proof.
+  intros evs s Ht. destruct (winv_run evs init winv_init) as [h1 h2 h3 h4 h5 h6 h7 h8 h9].
+  fold s in h4, h6, h7. destruct (h6 Ht) as [Hu Ha]. split; [assumption|]. split; [assumption|].
+  destruct (rd_pre (rd s)) eqn:E.
+  - destruct (h4 eq_refl) as [_ F]. congruence.
+  - apply (h7 eq_refl Hu).
+Qed.
+
+(* ---------------------------------------------------------------------------------------- *)
+(* Flush                                                                                      *)
+(* ---------------------------------------------------------------------------------------- *)
+Lemma flush_loop_spec : forall fuel i env,
+  let '(r, k) := flush_loop fuel i env in
+  (i <= k <= i + fuel)%nat /\
+  (forall j, (i <= j)%nat -> (S j < k)%nat -> env j = FPutFull) /\
+  (r = FRQueueFull -> k = (i + fuel)%nat /\ forall j, (i <= j < k)%nat -> env j = FPutFull) /\
+  (r <> FRQueueFull -> (i < k)%nat /\ env (pred k) <> FPutFull).
+Proof.
+  induction fuel as [|f IH]; intros i env; cbn [flush_loop].
+  - split; [lia|]. split; [intros; lia|]. split; [intros _; split; [lia|intros; lia]|intro H; congruence].
+  - destruct (env i) eqn:E.
+    + specialize (IH (S i) env). destruct (flush_loop f (S i) env) as [r k].
+      destruct IH as [A [B [C D]]]. split; [lia|]. split.
+      * intros j Hj Hk. destruct (Nat.eq_dec j i) as [->|Hne]; [assumption|]. apply B; lia.
+      * split.
+        -- intro Hr. destruct (C Hr) as [C1 C2]. split; [lia|]. intros j Hj.
+           destruct (Nat.eq_dec j i) as [->|Hne]; [assumption|]. apply C2; lia.
+        -- intro Hr. destruct (D Hr) as [D1 D2]. split; [lia|assumption].
+    + split; [lia|]. split; [intros; lia|]. split; [intro; discriminate|]. intros _. split; [lia|]. cbn. congruence.
+    + split; [lia|]. split; [intros; lia|]. split; [intro; discriminate|]. intros _. split; [lia|]. cbn. congruence.
+    + split; [lia|]. split; [intros; lia|]. split; [intro; discriminate|]. intros _. split; [lia|]. cbn. congruence.
+    + split; [lia|]. split; [intros; lia|]. split; [intro; discriminate|]. intros _. split; [lia|]. cbn. congruence.
+Qed.
+
+Lemma flush_bounded : forall first_full env,
+  let '(r, k) := flush_retry first_full env in
+  (Z.of_nat k <= c_flushRetryBound) /\
+  (r = FRQueueFull -> Z.of_nat k = c_flushRetryBound /\ forall j, (j < k)%nat -> env j = FPutFull).
+Proof.
+  intros ff env. unfold flush_retry. destruct ff.
+  - pose proof (flush_loop_spec (Z.to_nat c_flushRetryBound) 0 env) as H.
+    destruct (flush_loop (Z.to_nat c_flushRetryBound) 0 env) as [r k]. destruct H as [A [_ [C _]]].
+    assert (Hb : 0 <= c_flushRetryBound) by (vm_compute; discriminate).
+    split; [lia|]. intro Hr. destruct (C Hr) as [C1 C2]. split; [lia|]. intros j Hj. apply C2. lia.
+  - split; [vm_compute; discriminate|]. intro; discriminate.
+Qed.
+
+(* ---------------------------------------------------------------------------------------- *)
+(* AcceptStream / initProtocol                                                                *)
+(* ---------------------------------------------------------------------------------------- *)
+Record SInv (s : sst2) : Prop := {
+  s_flag : shutdown_flag s = true -> shutdownCh s = true \/ closer s = CFlagged \/ closer s = CNotified;
+  s_done : shutdownCh s = true -> shutdown_flag s = true;
+  s_cl : closer s <> CIdle -> shutdown_flag s = true;
+  s_acc : acc s = WShutdown -> shutdownCh s = true;
+  s_itch : itch s = true -> t_start s + t_out s <= now2 s;
+  s_ito : ini s = WTimeout -> t_start s + t_out s <= now2 s;
+  s_ipark : ini s = WParked -> itmr s = true \/ itch s = true }.
+
+Lemma sinv_init : SInv init2.
+Proof. constructor; cbn; intros; try discriminate; auto. Qed.
+
+Ltac brk2 :=
+  repeat match goal with
+         | |- context [match ?x with WIdle => _ | _ => _ end] => is_var x; destruct x
+         | |- context [match ?x with CIdle => _ | _ => _ end] => is_var x; destruct x
+         | |- context [match ?x with O => _ | S _ => _ end] => is_var x; destruct x
+         | |- context [if ?c then _ else _] => is_var c; destruct c
+         | |- context [if ?c then _ else _] => destruct c eqn:?
+         end.
+
+Lemma sinv_step : forall s e, SInv s -> SInv (step2 s e).
+Proof.
+  intros s e [h1 h2 h2' h3 h4 h5 h6].
+  destruct s as [aq sf sc cl ac nw ts to ir ic im ii]. cbn in h1, h2, h2', h3, h4, h5, h6.
+  destruct e; cbn [step2]; cbn [acceptq shutdown_flag shutdownCh closer acc now2 t_start t_out ires itch itmr ini];
+    brk2; constructor; fld.
+Qed.
+
+Lemma sinv_run : forall evs s, SInv s -> SInv (run2 evs s).
+Proof.
+  induction evs as [|e r IH]; intros s HI; [exact HI|].
+  change (run2 (e :: r) s) with (run2 r (step2 s e)). apply IH. apply sinv_step. assumption.
+Qed.
+
+Lemma session_waiters : forall evs, let s := run2 evs init2 in
+  (* IsClosed() implies shutdownCh is closed or Session.Close is on its way to close it *)
+  (shutdown_flag s = true -> shutdownCh s = true \/ closer s = CFlagged \/ closer s = CNotified) /\
+  (* AcceptStream returns the shutdown error only after shutdown *)
+  (acc s = WShutdown -> shutdownCh s = true) /\
+  (* once shutdownCh is closed a parked AcceptStream has a ready branch, for ever *)
+  (forall e, acc s = WParked -> shutdownCh s = true ->
+     (forall b, e <> AccWake b) -> e <> AccCall -> acc (step2 s e) = WParked /\ shutdownCh (step2 s e) = true) /\
+  (* initProtocol: the timeout outcome only at or after start + InitializeTimeout; while it waits the
+     timer is armed or has fired, so from that time on Fire2 or the timeout branch is enabled *)
+  (ini s = WTimeout -> t_start s + t_out s <= now2 s) /\
+  (ini s = WParked -> itmr s = true \/ itch s = true).
+Proof.
+  intros evs s. destruct (sinv_run evs init2 sinv_init) as [h1 h2 h2' h3 h4 h5 h6].
+  fold s in h1, h2, h3, h4, h5, h6. repeat split; try assumption.
+  - destruct s as [aq sf sc cl ac nw ts to ir ic im ii]. cbn in *. subst.
+    destruct e; cbn [step2]; cbn [acceptq shutdown_flag shutdownCh closer acc now2 t_start t_out ires itch itmr ini];
+      brk2; cbn; try reflexivity; try congruence.
+    all: try (exfalso; eapply H1; reflexivity).
+  - destruct s as [aq sf sc cl ac nw ts to ir ic im ii]. cbn in *. subst.
+    destruct e; cbn [step2]; cbn [acceptq shutdown_flag shutdownCh closer acc now2 t_start t_out ires itch itmr ini];
+      brk2; cbn; try reflexivity; try congruence.
 Qed.
